@@ -99,7 +99,12 @@ func bitField(nd data.UnixFSData) (bitfield.Bitfield, error) {
 	if err != nil {
 		return nil, err
 	}
-	bf.SetBytes(nd.FieldData().Must().Bytes())
+	bits := nd.FieldData().Must().Bytes()
+	if len(bits) > len(bf) {
+		// SetBytes panics when handed more bytes than the fanout has room for
+		return nil, fmt.Errorf("hamt bitfield (%d bytes) exceeds what fanout %d allows", len(bits), fanout)
+	}
+	bf.SetBytes(bits)
 	return bf, nil
 }
 
